@@ -342,6 +342,16 @@ namespace verif
         GroupingLocale& operator=(const GroupingLocale&) = delete;
     };
 
+    // ---- ambient state: errno ---------------------------------------------------------------------
+    // Whatever ran before on the thread may have left a range or argument error behind; code that tests errno
+    // after a conversion without clearing it first would read that.  The drivers set it before every case: one case
+    // in eight starts with ERANGE, one in eight with EINVAL (by the case's bytes), the others with 0.
+    inline int ambient_errno(const uint8_t* d, size_t n)
+    {
+        uint64_t h = fnv1a(d, n, 0xe7740) % 8;
+        return h == 1 ? 34 /* ERANGE */ : h == 2 ? 22 /* EINVAL */ : 0;
+    }
+
     // Implemented by each property harness -------------------------------------
     struct HarnessInfo
     {
